@@ -74,6 +74,16 @@ def parse(s):
                         break
                 expect(")")
                 node = ("app", t[1], tuple(args))
+            elif t2 == ("sym", "{"):
+                # unit aggregate `Type::Variant{}`
+                save = pos[0]
+                take()
+                m3, t3 = peek()
+                if t3 == ("sym", "}"):
+                    take()
+                    node = ("var", t[1] + "{}")
+                else:
+                    raise TermError("aggregate with fields in %r" % s)
             else:
                 node = ("var", t[1])
         else:
